@@ -759,6 +759,53 @@ def alias_names(repo, res):
 
 
 @rule(
+    "DIAG-TO-FORM",
+    ["C10", "C06"],
+    "compute_ir, interpreted with stubbed per-object IR functions: the form IR and the integral IR of every form are computed under the "
+    "`part` the caller's options name (diagonal -> TensorPart.diagonal for the form descriptor's rank, the same options dict for the "
+    "integrals), for each form of the module",
+    min_instances=2,
+)
+def diag_to_form(repo, res):
+    from ..absint import Interp, Node, Raised, _PyCall
+    from ..lnodes_model import load_classes
+
+    rep = repo.mod("ffcx.ir.representation")
+    ci = rep.func("compute_ir")
+    res.functions.add(ci.key)
+    for part in ("diagonal", "full"):
+        key = f"{ci.key}:part-handed-on:{part}"
+        res.ob(key)
+        it = Interp(repo, load_classes(repo), primary="ffcx.ir.representation")
+        it.overrides["logger"] = Node("Logger", info=_PyCall(lambda *a: None), debug=_PyCall(lambda *a: None))
+        it.overrides["naming.form_name"] = _PyCall(lambda form, i, prefix: f"form_{i}_{prefix}")
+        it.overrides["naming.integral_name"] = _PyCall(lambda form, t, i, sid, prefix, k=None: f"integral_{i}_{t}_{k}")
+        it.overrides["naming.expression_name"] = _PyCall(lambda e, prefix, i=None: f"expression_{i}_{prefix}")
+        seen = {"form": [], "integral": []}
+        it.overrides["_compute_integral_ir"] = _PyCall(lambda fd, i, els, inames, opts, vis: seen["integral"].append((i, dict(opts))) or [])
+        it.overrides["_compute_form_ir"] = _PyCall(lambda fd, i, prefix, fnames, inames, idom, onames, part_:
+                                                    seen["form"].append((i, part_)) or Node("FormIR", name=fnames[i], name_from_uflfile=f"form_{prefix}_{i}"))
+        it.overrides["_compute_expression_ir"] = _PyCall(lambda e, i, prefix, an, opts, vis, onames: Node("ExpressionIR", name=f"expression_{i}", name_from_uflfile=f"expression_{prefix}_{i}"))
+        it.overrides["TensorPart.from_str"] = _PyCall(lambda s_: f"TensorPart.{s_}")
+        it.overrides["DataIR"] = _PyCall(lambda **k: Node("DataIR", **k))
+        it.overrides["id"] = _PyCall(lambda o: id(o))
+        it.overrides["itertools.chain"] = _PyCall(lambda *a: [x for l_ in a for x in l_])
+        fds = [Node("FormData", original_form=Node("Form", name=n_), integral_data=[]) for n_ in ("a", "L")]
+        an = Node("UFLData", form_data=fds, expressions=[], element_numbers={}, unique_elements=[])
+        opts = {"part": part, "scalar_type": "float64", "sum_factorization": False}
+        try:
+            it.call_f(ci, [an, {}, "p", opts, False])
+        except Raised as e:
+            res.fail(key, f"compute_ir raises ({e.what}) on two forms with part={part!r}", rep.line(ci.node))
+            continue
+        if seen["form"] != [(0, f"TensorPart.{part}"), (1, f"TensorPart.{part}")]:
+            res.fail(key, f"with options part={part!r} the form IRs are computed under {seen['form']}, expected TensorPart.{part} for both forms: the descriptor's rank "
+                     "and the kernels' tensor shape must follow the same option", rep.line(ci.node))
+        if [(i, o.get("part")) for i, o in seen["integral"]] != [(0, part), (1, part)]:
+            res.fail(key, f"with options part={part!r} the integral IRs are computed with {[(i, o.get('part')) for i, o in seen['integral']]}", rep.line(ci.node))
+
+
+@rule(
     "CLI-OUTSTEM",
     ["C20"],
     "the part of main() that derives namespaces and output file stems from the parsed arguments is interpreted for every "
